@@ -118,6 +118,13 @@ def session(b, sch, js, rng, start_docs, slices, tid, ncalls, dom=None):
     held_steps = []
     marksets = [[]]
     retired = []          # mappings of finished transforms (tracked as values)
+    pending_lists = []    # caller-owned mark lists in non-canonical order (tracked as values)
+    marks_pool = []
+    for mt_ in sch.marks.values():
+        try:
+            marks_pool.append(mt_.create({a: "v" for a in mt_.attrs if mt_.attrs[a].is_required} or None))
+        except Exception:  # noqa: BLE001
+            pass
     log = []
 
     def call(name, fn):
@@ -269,6 +276,27 @@ def session(b, sch, js, rng, start_docs, slices, tid, ncalls, dom=None):
                     if r is not None:
                         live.add("marklist", r)
                     live.add("marklist", call("Mark.set_from", lambda: Mark.set_from(list(reversed(ms)))))
+                    # caller-owned lists in non-canonical order (registered a call earlier) handed to the constructors
+                    for lst in pending_lists[-2:]:
+                        live.add("marklist", call("Mark.set_from", lambda: Mark.set_from(lst)))
+                        nd_ = call("Schema.text", lambda: sch.text("q", lst))
+                        if nd_ is not None:
+                            live.add("node", nd_)
+                        leafs = [t_ for t_ in sch.nodes.values() if t_.is_leaf and not t_.is_text and not t_.has_required_attrs()]
+                        if leafs:
+                            nd2 = call("NodeType.create", lambda: leafs[0].create(None, None, lst))
+                            if nd2 is not None:
+                                live.add("node", nd2)
+                    if len(ms) >= 2:
+                        fresh_list = list(reversed(ms))
+                        pending_lists.append(fresh_list)
+                        live.add("marklist", fresh_list)
+                    elif len(ms) == 1 and marks_pool:
+                        other_m = rng.choice(marks_pool)
+                        if other_m.type != ms[0].type:
+                            fresh_list = sorted([ms[0], other_m], key=lambda x: -x.type.rank)
+                            pending_lists.append(fresh_list)
+                            live.add("marklist", fresh_list)
                     pt = rng.choice(list(sch.nodes.values()))
                     live.add("marklist", call("NodeType.allowed_marks", lambda: pt.allowed_marks(ms)))
                     # the mark sets the documents themselves hold (node.marks, marks at a position), handed to
